@@ -104,6 +104,18 @@ fn char_substring_offset(
 ) -> Result<(usize, usize), Error> {
     let len = s.chars().count();
 
+    // Both indices must lie within the string before any shortcut below is taken.
+    if let Some(start) = start {
+        if start > len {
+            return Err(InvalidStringIndex(start, len.saturating_sub(1)));
+        }
+    }
+    if let Some(end) = end {
+        if end > len {
+            return Err(InvalidStringIndex(end, len.saturating_sub(1)));
+        }
+    }
+
     if let (Some(start), Some(end)) = (start, end) {
         if start == end {
             return Ok((0, 0));
@@ -246,13 +258,10 @@ pub fn string_fill(vm: &mut Vm) -> Result<VCell, Error> {
     let mut s = s.borrow_mut();
     let s = s.deref_mut();
 
-    let count = match (start, end) {
-        (Some(start), Some(end)) if end >= start => end - start,
-        (Some(start), None) => s.chars().count() - start,
-        _ => s.chars().count(),
-    };
-
-    let (start, end) = char_substring_offset(s, start, end)?;
+    // Validate the range first: the fill is only built for a range inside the string.
+    let (start_offset, end_offset) = char_substring_offset(s, start, end)?;
+    let count = end.unwrap_or_else(|| s.chars().count()) - start.unwrap_or(0);
+    let (start, end) = (start_offset, end_offset);
     let fill = std::iter::repeat_n(c, count).collect::<String>();
 
     s.replace_range(start..end, &fill);
